@@ -43,23 +43,26 @@ mod builder;
 /// the system clock.
 #[cfg(feature = "verif-hooks")]
 pub mod verif {
-    use std::sync::atomic::{AtomicUsize, Ordering};
+    use std::sync::atomic::{AtomicPtr, Ordering};
     use time::OffsetDateTime;
 
-    static CLOCK: AtomicUsize = AtomicUsize::new(0);
+    static CLOCK: AtomicPtr<()> = AtomicPtr::new(std::ptr::null_mut());
 
     /// Installs (or removes) a clock returning UTC unix time in nanoseconds.
     pub fn set_clock(clock: Option<fn() -> i128>) {
-        CLOCK.store(clock.map(|f| f as usize).unwrap_or(0), Ordering::SeqCst);
+        CLOCK.store(
+            clock.map(|f| f as *mut ()).unwrap_or(std::ptr::null_mut()),
+            Ordering::SeqCst,
+        );
     }
 
     pub(super) fn now() -> Option<OffsetDateTime> {
         let clock = CLOCK.load(Ordering::SeqCst);
-        if clock == 0 {
+        if clock.is_null() {
             return None;
         }
-        // safety: the only non-zero values ever stored are `fn() -> i128` pointers.
-        let f: fn() -> i128 = unsafe { std::mem::transmute::<usize, fn() -> i128>(clock) };
+        // safety: the only non-null values ever stored are `fn() -> i128` pointers.
+        let f: fn() -> i128 = unsafe { std::mem::transmute::<*mut (), fn() -> i128>(clock) };
         OffsetDateTime::from_unix_timestamp_nanos(f()).ok()
     }
 }
